@@ -27,6 +27,7 @@ DRIVERS = {
     'operators_sort': {'vm': 'operators_total'},
     'operators_random': {'vm': 'operators_total'},
     'group_vars': {'vm': 'operators_total'},
+    'object_move': {'vm': 'operators_total'},
     'd_array_check': {'vm': 'operators_total'},
     'runtime_core': {'vm': 'runtime_core'},
     'runtime_execute': {'vm': 'runtime_step'},
